@@ -13,7 +13,7 @@ M=$(git status --porcelain lean/CnvVerif/Generated | grep "^ M\|^MM" )
 if [ -n "$M" ]; then echo "GENERATED FILES CHANGED:"; echo "$M"; fi
 ( cd lean && lake build CnvVerif Main CnvVerif.Props.All 2>&1 | grep -E "^error|✖|build failed" | head -20 )
 if ( cd lean && lake build CnvVerif Main CnvVerif.Props.All > /dev/null 2>&1 ); then
-  git add -A lean harness tools reports proposed_fixes corpus coverage 2>/dev/null
+  git add -A lean harness tools reports proposed_fixes coverage
   git commit -qm "merge ext-$P (round-5 growth): $(git log -1 --format=%s ext-$P | cut -c1-150)" && echo "committed merge of $P: $(tail -1 /var/tmp/register.out | cut -c1-400)"
 else
   echo "BUILD FAILED after merging $P"
